@@ -137,6 +137,11 @@ def out_sig(node):
     return (hashlib.sha256(node[1]).hexdigest(), len(node[1]), node[2])
 
 
+def too_long(path):
+    """A path with a component the kernel rejects (ENAMETOOLONG)."""
+    return any(len(c.encode()) > 255 for c in path.split('/'))
+
+
 class Invalid(BaseException):
     """The scenario left the universe the properties quantify over."""
 
@@ -233,6 +238,11 @@ class ModelBuild:
     def query(self, st, kind, p, cmp='METADATA'):
         self._check_scope(p)
         V = st.V
+        if too_long(p) and kind in ('read_text', 'read_binary',
+                                    'declare_read'):
+            # "some other type of OS error" - which one depends on whether
+            # the parent directories physically exist: unspecified
+            raise Invalid('read of a path with an over-long component')
         if kind == 'exists':
             return V.exists(p)
         if kind == 'is_file':
@@ -341,6 +351,10 @@ class ModelBuild:
             d = nd
         if st.V.is_file(d):
             raise NotADirectoryError(d)
+        if any(too_long(d) for d in missing):
+            # creating the parent directories fails part-way: nothing stays
+            import errno
+            raise OSError(errno.ENAMETOOLONG, 'File name too long')
         if not self.allow_ancestor_outputs:
             for k, v in st.claims.items():
                 # (a failed build_file left no output: not an output path)
@@ -480,6 +494,9 @@ class ModelBuild:
         # when it returns
         if isinstance(data, str):
             data = data.encode()
+        if too_long(path):
+            import errno
+            raise OSError(errno.ENAMETOOLONG, 'File name too long')
         self.pending[path] = ('f', data, self.now)
 
     def unlink(self, path):
@@ -582,6 +599,10 @@ class ModelBuilder:
                 except (TypeError, ValueError):
                     raise TypeError('return value must be JSON')
                 if path not in mb.pending:
+                    if too_long(path):
+                        # looking for the file fails with ENAMETOOLONG
+                        import errno
+                        raise OSError(errno.ENAMETOOLONG, 'too long')
                     raise RuntimeError("didn't create that file")
             finally:
                 sub.done = True
@@ -596,6 +617,8 @@ class ModelBuilder:
             mb._fail_file(st, path)
             self._append(rec)
             raise
+        if too_long(path):
+            raise Invalid('over-long target was created')
         st.inprog.discard(path)
         st.V.put(path, mb.pending.pop(path))
         rec.status = 'ok'
